@@ -64,7 +64,12 @@ static void child_atexit()
 {
   if (CS)
     {
-      if (CS->simt_used && sim_sched_active()) { sim_sched_end(&CS->st); write_decisions(); }
+      if (CS->simt_used && sim_sched_active())
+	{
+	  if (const char *d = getenv("SIMT_DUMP_LOG"))      // development aid: the event log of the run
+	    if (FILE *f = fopen(d, "w")) { std::string l = sim_dump_log(1000000); fwrite(l.data(), 1, l.size(), f); fclose(f); }
+	  sim_sched_end(&CS->st); write_decisions();
+	}
       CS->tsan_reports = sim_tsan_reports();
       CS->reached_exit = 1;
       simalloc_stats(&CS->simm_allocs, &CS->simm_bytes, &CS->simm_addr_hash);
@@ -99,6 +104,11 @@ static void simt_fatal(const char *klass, const std::string &details)
 }
 
 static int g_mkdtemp_counter;
+
+static void io_yield(const char *what)
+{
+  if (sim_sched_active()) sim_yield(what);
+}
 
 extern "C" int __wrap_system(const char *cmd)
 {
@@ -212,6 +222,7 @@ static void run_child(const JVal &spec)
 	      std::string at = x.str("at", "system");
 	      simf_add_party(at == "system" ? -1 : (int) x.num("obj", 0), at == "system" ? -1 : op_code(at), (long) x.num("k", 0), x.str("cmd").c_str());
 	    }
+	if (f->num("io_yield", 0)) simf_set_io_yield(io_yield);
 	if (f->num("helper", 0)) simf_helper_start();
 	if (!simf_install()) { fprintf(stderr, "SIM-F: cannot install seccomp filter: %s\n", strerror(errno)); _exit(114); }
       }
